@@ -38,6 +38,9 @@ def plan(tier):
         {"lane": "main", "n": 240 if q else 5000, "timeout": 900 if q else 3300, "min_per_shard": 5},
         {"lane": "hostile", "n": 96 if q else 2500, "timeout": 900 if q else 3300, "min_per_shard": 4},
         {"lane": "asan", "n": 48 if q else 800, "timeout": 900 if q else 3300, "min_per_shard": 4, "asan": True, "optional": True},
+        # deterministic reproducers of the known findings listed for this property (KNOWN_FINDINGS.txt), so that the
+        # KNOWN-FINDING line is printed exactly as long as the defect is present
+        {"lane": "pinned", "n": 1, "timeout": 600, "optional": True},
     ]
 
 
@@ -66,6 +69,8 @@ def setup_shard(ctx):
 
 
 def run_case(rng, idx, tier, lane, ctx):
+    if lane == "pinned":
+        return S.pinned_k02(gridded=False)
     spec = GE.gen_events(rng, limits="default")
     theta = GE.param_values(rng, spec)
     x0 = GE.initial_state(rng, spec)
